@@ -4,6 +4,7 @@ import (
 	"fmt"
 	"math"
 	"math/rand/v2"
+	"sort"
 
 	"github.com/wizenheimer/comet"
 
@@ -317,6 +318,33 @@ func runC14(r *ev.Run) {
 			ents := snapshot()
 			for qi := 0; qi < 1+rng.IntN(2); qi++ {
 				q := vg.query()
+				if rng.IntN(3) == 0 && len(ents) > 0 {
+					// crafted: a query on the line from a stored vector's base point (its list centroid; the origin for PQ)
+					// through its QUANTISED form, at or beyond it — the score is the distance to the reconstruction, which
+					// may lie farther out than every true vector of the list (a bound computed from true vectors is no bound)
+					keys := make([]uint32, 0, len(ents))
+					for id := range ents {
+						keys = append(keys, id)
+					}
+					sort.Slice(keys, func(a, b int) bool { return keys[a] < keys[b] })
+					en := ents[keys[rng.IntN(len(keys))]]
+					lam := []float32{1, 1.25, 2, 5}[rng.IntN(4)]
+					q = make([]float32, dim)
+					nonZero := false
+					for j := range q {
+						var base float32
+						if en.cent != nil {
+							base = en.cent[j]
+						}
+						q[j] = base + lam*(en.recon[j]-base)
+						nonZero = nonZero || q[j] != 0
+					}
+					if !nonZero {
+						q = vg.query()
+					} else {
+						r.Count("probes:query-beyond-a-reconstruction", 1)
+					}
+				}
 				o := s.genProbeOpts(rng)
 				res, err := s.search(o).WithQuery(cloneF32(q)).WithK(0).Execute()
 				if err != nil {
